@@ -120,11 +120,11 @@ partial def loopIO (h : IO.FS.Stream) (st : OSt) : IO Unit := do
       let entry := t.getLast?.getD 0
       let wf := traceWFB G entry t
       let weak := chainB (fun a b => linkedB G a b || ctxJumpB G a b) t
-      -- replay in the model of the code as it is (closureCheck) and, for diagnosis, in the model of
-      -- the code before repair 7ab5f0c
+      -- replay in the model of the code as it is (r0) and in the model of the proposed repair (r1):
+      -- either is accepted, so that applying a closure-trace repair does not raise a false alarm
       let r1 := replayB G { st.cfg with closureCheck := true } t
       let r0 := replayB G { st.cfg with closureCheck := false } t
-      IO.println s!"trace {id} wf={b01 wf} weak={b01 weak} replay={b01 r1} replay0={b01 r0} replay1={b01 r1}"
+      IO.println s!"trace {id} wf={b01 wf} weak={b01 weak} replay={b01 (r0 || r1)} replay0={b01 r0} replay1={b01 r1}"
     | none => IO.println s!"bad-record trace {id}"
     loopIO h st
   | ["run", id, entry, fuel] =>
